@@ -622,6 +622,8 @@ class SymX:
         src = _iterator_source(t)
         if src is not None:
             adv = st.heap.get(("#adv", t), 0)
+            if adv < 0:
+                return ("unk", "iterator advanced a path-dependent number of times", 0)
             return src if adv == 0 else ("slice", src, const(adv), NONE_T, NONE_T)
         if t[0] == "box":
             cur = st.heap.get(("#box", t[1]))
@@ -1036,6 +1038,8 @@ class SymX:
             va, vb = a.heap.get(k), b.heap.get(k)
             if va == vb:
                 out.heap[k] = va
+            elif k[0] == "#adv":
+                out.heap[k] = -1  # consumed a path-dependent number of elements: position unknown from here on
             else:
                 base_attr = ("attr", k[0], k[1])
                 if k[0] == "#box":
@@ -2667,7 +2671,7 @@ class SymX:
         if name == "next" and args and call is not None and call.args and isinstance(call.args[0], ast.Name):
             raw = st.env.get(call.args[0].id)
             src = _iterator_source(raw) if raw is not None else None
-            if src is not None and not self.loops_since_creation(raw):
+            if src is not None and not self.loops_since_creation(raw) and st.heap.get(("#adv", raw), 0) >= 0:
                 adv = st.heap.get(("#adv", raw), 0)
                 st.heap[("#adv", raw)] = adv + 1
                 return ("idx", src, const(adv))  # the element consumed from the iterator
